@@ -79,6 +79,12 @@ case("generic-identity-at-void", ["C01", "C02", "C22"],
 case("unwrap-void-payload-in-loop", ["C01", "C02", "C23"],
      "fn ov(x: int) -> option<void> { if x == 4 { option.none } else { option.some(nil) } }\nfor i in [1, 2] {\n  ov(i)!\n  println(i)\n}\n", ("out", "1\n2\n"))
 
+case("index-into-array-of-void", ["C01", "C02", "C26"],
+     "let xs = [nil, nil]\nprintln(\"<\" .. xs[0] .. \">\")\nlet e = xs[1]\nprintln(e)\nxs[0] = nil\nxs.push(nil)\nprintln(xs.len())\nlet t = (1, xs[0], \"a\")\nprintln(t)\nprintln(xs[5])\n",
+     ("err", "oob", None, "<nil>\nnil\n3\n(1, nil, a)\n"))
+case("generic-index-at-void", ["C01", "C02", "C22"],
+     "fn firstg(gx: T ToString, ga: array<T>) -> string {\n  \"<\" .. ga[0] .. \">\"\n}\nprintln(firstg(nil, [nil, nil]))\nprintln(firstg(5, [7, 8]))\nprintln(firstg(nil, [nil]))\n", ("out", "<nil>\n<7>\n<nil>\n"))
+
 # ---- open defect zone: break/continue out of an operand position -------------------------
 case("jump-from-operand-for-continue", ["C01", "C02"],
      "var acc = 0\nfor i in 4 {\n  acc = acc + { if i == 2 { continue }; i }\n}\nprintln(acc)\n", ("out", "4\n"))
